@@ -4,6 +4,7 @@ import PydapModel.Dap4
 import Driver.Dap4
 import Driver.Slice
 import PydapModel.Dap4Index
+import PydapModel.Dap4Order
 namespace Pydap.Driver
 open Pydap Sexp Pydap.Dmr
 
@@ -34,6 +35,7 @@ def dmrErr : Dmr.Err → String
   | .valueError => "(err ValueError)"
   | .typeError => "(err TypeError)"
   | .syntaxError => "(err SyntaxError)"
+  | .warning => "(err Warning)"
   | .unmodelled => "(err unmodelled)"
 
 def optStr : Option Dmr.Str → String
@@ -101,10 +103,10 @@ def handleDmr : List Sexp → Option String
     pure (strToHex (Dap4.proxy4Request id sh ix))
   | [atom "dap4-response", x, resp] => do
     -- UNPACKDAP4DATA: the DMR chunk's element tree is supplied by the harness (ElementTree is trusted),
-    -- the variables are decoded in the order the DMR declares them
+    -- the variables are decoded in the model's `decodeOrder` (walk order sorted by position in get_variables)
     let x ← sexpToXNode? 64 x
     let resp ← asBytes? resp
-    match parseVars x with
+    match decodeOrder x with
     | .error e => pure (dmrErr e)
     | .ok rs =>
       match rs.mapM layoutOf? with
